@@ -667,6 +667,7 @@ def check(ctx):
 
     # ---- R6 membership and element fast path ------------------------------------
     _membership(ctx, rep, model)
+    _derived_pspace(rep, model)
     # ---- R7 derived spaces ----------------------------------------------------
     _derived(ctx, rep, model, eqs)
     return rep
@@ -1028,3 +1029,162 @@ def _derived(ctx, rep, model, eqs):
 
 def _reaches(fn, node, call):
     return node.lineno <= call.end_lineno
+
+
+# --------------------------------------------------------------------------
+# R7c: derived product spaces, evaluated.  The weights and the exponent of
+# the result are decoded from what is handed to the ProductSpace constructor
+# (a weighting object carries its exponent; a plain array / number takes the
+# `exponent` keyword, default 2) and must be the sliced weights and the
+# exponent of the parent.
+def _derived_pspace(rep, model):
+    import numpy as _np
+    from ..symex import (Interp, Inst, ClassV, Rec, Builtin, PyRaise,
+                         is_scalar, to_rat)
+    from ..namodel import NA, NAHooks, NAInterp, objarr, na_of
+    from ..ratfun import Rat
+    PSP = 'odl/space/pspace.py'
+    ci = model.get('ProductSpace')
+    if ci is None:
+        raise AnalysisError('anchor vanished: ProductSpace')
+
+    class H(NAHooks):
+        def __init__(self):
+            self.made = []
+
+        def on_call(self, interp, f, args, kwargs, node):
+            if isinstance(f, ClassV) and f.ci.name == 'ProductSpace':
+                r = Rec('made-pspace', spaces=list(args), kwargs=dict(kwargs))
+                self.made.append(r)
+                return r
+            if isinstance(f, ClassV) and f.ci.name == \
+                    'ProductSpaceArrayWeighting':
+                return Rec('ProductSpaceArrayWeighting', array=args[0],
+                           exponent=args[1] if len(args) > 1 else
+                           kwargs.get('exponent', Rat.const(2)))
+            if isinstance(f, ClassV) and f.ci.name == \
+                    'ProductSpaceConstWeighting':
+                return Rec('ProductSpaceConstWeighting', const=args[0],
+                           exponent=args[1] if len(args) > 1 else
+                           kwargs.get('exponent', Rat.const(2)))
+            return NotImplemented
+
+        def on_getattr(self, interp, obj, name):
+            if isinstance(obj, Rec):
+                if name in obj.attrs:
+                    return obj.attrs[name]
+                raise PyRaise('AttributeError')
+            return NAHooks.on_getattr(self, interp, obj, name)
+
+    class II(NAInterp):
+        def _isinst1(self, v, nm):
+            if isinstance(v, Rec) and v.kind.endswith('Weighting'):
+                return nm in (v.kind, 'Weighting',
+                              'ArrayWeighting' if 'Array' in v.kind
+                              else 'ConstWeighting')
+            if isinstance(v, Rec) and v.kind == 'subspace':
+                return nm in ('LinearSpace', 'TensorSpace')
+            return NAInterp._isinst1(self, v, nm)
+
+    p = Rat.var('p')
+    W = [Rat.var('w%d' % i) for i in range(4)]
+
+    def parent(kind):
+        sp = Inst(ci)
+        def sub(i):
+            r = Rec('subspace', tag=i)
+            r.attrs['astype'] = Builtin('astype', lambda dt: sub(i))
+            r.attrs['real_space'] = r
+            r.attrs['complex_space'] = r
+            return r
+        parts = tuple(sub(i) for i in range(4))
+        if kind == 'array':
+            w = Rec('ProductSpaceArrayWeighting',
+                    array=NA(objarr(list(W)), 'float64'), exponent=p)
+        else:
+            w = Rec('ProductSpaceConstWeighting', const=Rat.var('c'),
+                    exponent=p)
+        sp.attrs['_ProductSpace__spaces'] = parts
+        sp.attrs['_ProductSpace__weighting'] = w
+        sp.attrs['_LinearSpace__field'] = Rec('field')
+        return sp, parts, w
+
+    def decode(made):
+        kw = made.attrs['kwargs']
+        w = kw.get('weighting')
+        if isinstance(w, Rec) and w.kind.endswith('Weighting'):
+            ex = w.attrs['exponent']
+            if 'Array' in w.kind:
+                ws = [to_rat(x) for x in na_of(w.attrs['array']).a.ravel()]
+            else:
+                ws = ('const', to_rat(w.attrs['const']))
+        else:
+            ex = kw.get('exponent', Rat.const(2))
+            if w is None:
+                ws = ('const', Rat.const(1))
+            elif is_scalar(w):
+                ws = ('const', to_rat(w))
+            else:
+                ws = [to_rat(x) for x in na_of(w).a.ravel()]
+        return ws, ex
+
+    ops = [('__getitem__', [slice(1, None)], [1, 2, 3]),
+           ('__getitem__', [slice(None)], [0, 1, 2, 3]),
+           ('__getitem__', [[0, 2]], [0, 2]),
+           ('__getitem__', [(slice(None, 2),)], [0, 1]),
+           ('astype', ['float32'], [0, 1, 2, 3]),
+           ('real_space', None, [0, 1, 2, 3]),
+           ('complex_space', None, [0, 1, 2, 3])]
+    n = 0
+    for kind in ('array', 'const'):
+        for meth, args, sel in ops:
+            cons = 'ProductSpace.%s[%s weighting%s]' % (
+                meth, kind, '' if args is None else ',%r' % (args[0],))
+            n += 1
+            try:
+                h = H()
+                I = II(model, {}, h)
+                sp, parts, w = parent(kind)
+                if args is None:
+                    sp.attrs['dtype'] = 'float64'
+                    r = I.getattr_value(sp, meth)
+                else:
+                    if meth == 'astype':
+                        sp.attrs['dtype'] = 'float64'
+                        from ..namodel import DT
+                        args = [DT(args[0])]
+                    r = I.call(I.getattr_value(sp, meth), list(args), {})
+                if not (isinstance(r, Rec) and r.kind == 'made-pspace'):
+                    rep.undecided('R7c', cons, 'result %r' % (r,), PSP)
+                    continue
+                ws, ex = decode(r)
+                probs = []
+                if not (is_scalar(ex) and (to_rat(ex) - p).is_zero()):
+                    probs.append('exponent %r instead of the parent\'s p'
+                                 % (ex,))
+                if kind == 'array':
+                    want = [W[i] for i in sel]
+                    if not isinstance(ws, list) or len(ws) != len(want) or \
+                            any(not (a - b).is_zero()
+                                for a, b in zip(ws, want)):
+                        probs.append('weights %r instead of %r' % (ws, want))
+                else:
+                    if ws != ('const', Rat.var('c')) and not (
+                            isinstance(ws, tuple) and (
+                                ws[1] - Rat.var('c')).is_zero()):
+                        probs.append('weighting %r instead of the constant c'
+                                     % (ws,))
+                tags = [getattr(s, 'attrs', {}).get('tag')
+                        for s in r.attrs['spaces']]
+                if tags != sel:
+                    probs.append('parts %r instead of %r' % (tags, sel))
+                if probs:
+                    rep.violation('R7c', cons, '; '.join(probs), PSP)
+                else:
+                    rep.holds('R7c', cons, 'parts, weights and exponent '
+                              'carried over')
+            except Undecided as e:
+                rep.undecided('R7c', cons, str(e), PSP)
+            except PyRaise as e:
+                rep.violation('R7c', cons, 'raises %s' % e.name, PSP)
+    rep.floor('R7c', 'derived product spaces', n, 14)
